@@ -6,6 +6,8 @@ INVARIANT TypeOK
 INVARIANT WellFormedInv
 INVARIANT PartitionInv
 INVARIANT ThreadInv
+INVARIANT OptionInv
+INVARIANT WrapperInv
 INVARIANT Emit
 INVARIANT EmitInterface
 CHECK_DEADLOCK FALSE
